@@ -82,6 +82,47 @@ def _is_called_or_deref(f: Func, n: ast.AST) -> bool:
     return False
 
 
+def _name_only_restricted(ctx: Ctx, g: Func, a: ast.AST) -> bool:
+    """the collection passed as `ext_deps=` only holds dependencies whose `.sig is None`: either it is built by a
+    comprehension with that filter, or it starts empty and every statement that fills it is dominated by the
+    outcome `<dep>.sig is None` of a test (loop idiom)"""
+    sl = ctx.slicer(follow_calls=False).slice(g, a)
+    comps = [x for _, x in sl.nodes() if isinstance(x, (ast.ListComp, ast.GeneratorExp, ast.DictComp))]
+    if any(any(isinstance(c_, ast.Compare) and unparse(c_).endswith(".sig is None") for c_ in gen.ifs) for comp in comps for gen in comp.generators):
+        return True
+    if not isinstance(a, ast.Name):
+        return False
+    v = a.id
+    cfg = cfg_of(g)
+    none_br = []
+    for b in cfg.nodes:
+        if b.kind == "branch" and isinstance(b.ast, ast.Compare) and len(b.ast.ops) == 1 and isinstance(b.ast.left, ast.Attribute) and b.ast.left.attr == "sig" \
+                and isinstance(b.ast.comparators[0], ast.Constant) and b.ast.comparators[0].value is None:
+            if (isinstance(b.ast.ops[0], ast.Is) and b.label == "T") or (isinstance(b.ast.ops[0], ast.IsNot) and b.label == "F"):
+                none_br.append(b)
+    fills = []
+    for n in g.own_nodes():
+        if isinstance(n, (ast.Assign, ast.AnnAssign)):
+            tgts = n.targets if isinstance(n, ast.Assign) else [n.target]
+            for t in tgts:
+                if isinstance(t, ast.Name) and t.id == v and n.value is not None:
+                    val = n.value
+                    empty = (isinstance(val, (ast.Dict, ast.List)) and not (val.keys if isinstance(val, ast.Dict) else val.elts)) or (
+                        isinstance(val, ast.Call) and not val.args and not val.keywords and unparse(val.func).split(".")[-1] in ("dict", "OrderedDict", "list"))
+                    if not empty:
+                        return False
+                if isinstance(t, ast.Subscript) and isinstance(t.value, ast.Name) and t.value.id == v:
+                    fills.append(n)
+        elif isinstance(n, ast.Expr) and isinstance(n.value, ast.Call) and isinstance(n.value.func, ast.Attribute) and isinstance(n.value.func.value, ast.Name) \
+                and n.value.func.value.id == v and n.value.func.attr in ("append", "update", "setdefault", "extend", "insert", "add"):
+            fills.append(n)
+        elif isinstance(n, ast.AugAssign) and isinstance(n.target, ast.Name) and n.target.id == v:
+            return False
+    if not fills or not none_br:
+        return False
+    return all(dominated(ctx, g, st, none_br) is None for st in fills)
+
+
 def exempt_rule(ctx: Ctx, rule: str) -> None:
     """the ext_dep value: only sig=None dependencies reach it; accepted code must not be among them"""
     rep = ctx.report
@@ -102,9 +143,7 @@ def exempt_rule(ctx: Ctx, rule: str) -> None:
                 if a is None:
                     continue
                 n_sites += 1
-                sl = ctx.slicer(follow_calls=False).slice(g, a)
-                comps = [x for _, x in sl.nodes() if isinstance(x, (ast.ListComp, ast.GeneratorExp, ast.DictComp))]
-                ok = any(any(isinstance(c_, ast.Compare) and unparse(c_).endswith(".sig is None") for c_ in gen.ifs) for comp in comps for gen in comp.generators)
+                ok = _name_only_restricted(ctx, g, a)
                 empty = isinstance(a, ast.Dict) and not a.keys
                 if not ok and not empty:
                     bad_sites.append(f"{g.loc(n)}: ext_deps={unparse(a, 50)} is not restricted to dependencies without a value signature")
